@@ -18,6 +18,10 @@ One clause only is decided; everything else in C11 quantifies over run-time mixi
               giving side subtracts tot1, the receiving side adds tot2).  The two sides select the entry of the totals map by
               the same whole-name match (prefix compare plus equal lengths); if one side matches differently, what leaves "N"
               in one cell can arrive in "Na" in the other
+  C11.wholename  every comparison of an element name with a totals key by strncmp over the stem before the parenthesis (giving side,
+              receiving side, deficit borrowed from the other redox states, moles_from_redox_states) is conjoined with equality of the
+              two stem lengths; a bare prefix compare books `Ca` on `C(4)` and `Na` on `N(5)`; where the name compared is itself a totals key its
+              stem is taken with strcspn as well (`C(-4)` must still find `C(4)`)
   C11.maxmix    "bounded mixing": init_mix splits a time step into l_nmix mixing runs so that no cell's mixing fractions exceed the
               allowed maximum; l_nmix comes from maxmix, the maximum over the cells of m[i] + m1[i] taken AFTER the boundary cells'
               factors have been replaced.  Every update of that maximum reads the two factors of the SAME cell, and in a
@@ -206,6 +210,72 @@ def transfer_rule(P, R):
         R.violation("C11.transfer", "multi_D:tot1~tot2", "expected giver -= tot1 and receiver += tot2, found %s / %s" % signs, file=f["file"], line=b[0][1], function=f["q"])
 
 
+def wholename_rule(P, R):
+    """"element amounts are moved, never created or lost": the transport code matches an element name against the entries of a solution's
+    totals map (`Ca`, `C(4)`, `N(5)`, ...) by comparing the stem before the parenthesis with strncmp.  A prefix compare is a match of the
+    element only together with equality of the two stem lengths - without it `Ca` matches `C(4)` and `Na` matches `N(5)`, and an amount
+    (or a deficit) of one element is booked on another.  Every stem comparison in transport.cpp must be such a whole-name match."""
+    RULE = "C11.wholename"
+    R.rule(RULE, "every strncmp of an element name against a totals key (stem length from strlen / strcspn(.., \"(\")) is conjoined with equality of the two stem lengths", minimum=4)
+    n = 0
+    for key, f in sorted(P.functions.items()):
+        if not f.get("body") or not f["file"].endswith("transport.cpp"):
+            continue
+        # locals that hold a stem length
+        stem = {}
+        for x in T.walk(f["body"]):
+            if x[0] == "Bin" and x[2] == "=" and T.strip_casts(x[3])[0] == "Ref":
+                for c in T.calls(x[4]):
+                    if T.callee_name(c) in ("strlen", "strcspn") and c[4]:
+                        stem[T.strip_casts(x[3])[3]] = (T.callee_name(c), T.text(c[4][0]).replace(" ", ""))
+        if not stem:
+            continue
+        for x in T.walk(f["body"]):
+            if x[0] != "If":
+                continue
+            calls = [c for c in T.calls(x[2]) if T.callee_name(c) == "strncmp" and len(c[4]) == 3 and T.strip_casts(c[4][2])[0] == "Ref" and T.strip_casts(c[4][2])[3] in stem]
+            if not calls:
+                continue
+            n += 1
+            inst = "%s@%d" % (f["q"].split("::")[-1], x[1])
+            # conjuncts of the condition
+            conj = []
+
+            def split(c):
+                c = T.strip_casts(c)
+                if c[0] == "Paren":
+                    return split(c[2])
+                if c[0] == "Bin" and c[2] == "&&":
+                    split(c[3])
+                    split(c[4])
+                else:
+                    conj.append(c)
+            split(x[2])
+            eq = False
+            keystem = None
+            for c in conj:
+                if c[0] == "Bin" and c[2] == "==":
+                    a, b = T.strip_casts(c[3]), T.strip_casts(c[4])
+                    if a[0] == "Ref" and b[0] == "Ref" and a[3] in stem and b[3] in stem and a[3] != b[3]:
+                        eq = True
+                        # a name that is itself a totals key (iterator->first) may carry a valence: its stem needs strcspn too
+                        for v in (a[3], b[3]):
+                            fn, arg = stem[v]
+                            if ".first" in arg and fn != "strcspn":
+                                keystem = (v, arg)
+            in_conj = any(any(k is cc for cc in T.calls(c)) for c in conj for k in calls)
+            if eq and in_conj and keystem:
+                R.violation(RULE, inst, "the length `%s` of the totals key `%s` is its full length, not the stem before the parenthesis: a key that carries a valence (`C(-4)`) never "
+                            "matches its own redox family (`C(4)`)" % keystem, file=f["file"], line=x[1], function=f["q"])
+            elif eq and in_conj:
+                R.ok(RULE, inst, "prefix compare && equal stem lengths")
+            else:
+                R.violation(RULE, inst, "`%s` matches by prefix only (no test that the two stem lengths are equal): `Ca` matches `C(4)`, `Na` matches `N(5)` - the amount or deficit of one "
+                            "element is booked on another element's total" % T.text(x[2])[:90], file=f["file"], line=x[1], function=f["q"])
+    if n < 4:
+        R.anchor_missing(RULE, "only %d stem comparisons found in transport.cpp (4 confirmed: moles_from_redox_states, multi_D x3)" % n)
+
+
 def maxmix_rule(P, R):
     R.rule("C11.maxmix", "init_mix: every update of the maximum mixing fraction reads m and m1 of the same cell, the cell whose factors the block assigns", minimum=4)
     f = P.one("Phreeqc::init_mix")
@@ -259,6 +329,7 @@ def run(P, R, tier):
     mixwater_rule(P, R)
     maxmix_rule(P, R)
     transfer_rule(P, R)
+    wholename_rule(P, R)
     R.undecided += ["conservation of the column inventory over shifts (mixing-factor arithmetic)", "bounded mixing / convexity",
                     "stagnant zones, multicomponent diffusion, boundary conditions, reactive solids"]
     R.rule("C11.shift", "in-place advective shift loops over the solution store walk against the copy direction (each source is read before it is overwritten)", minimum=2)
